@@ -59,7 +59,7 @@ void set_heap_fill(int byte);           // content of fresh heap blocks for this
 
 // ---------------------------------------------------------------- configuration (call first thing in scenario)
 struct Config {
-    bool race_is_violation = false;     // C03: report HB races as violations
+    bool race_is_violation = true;      // a happens-before race is a violation in every scenario (C03's harness is the one built around it; the others hand objects over with vs::cell_*_hb)
     bool leak_check = true;             // live blocks after all threads ended = violation
     bool stalls = false;                // enable virtual-time stall / clock-advance faults
     bool allow_deadlock = false;        // scenario handles deadlock itself (never used for claims)
